@@ -43,3 +43,5 @@ Definition INT_MIN : Z := (-2147483648)%Z.
 Definition has (flags bit : N) : bool := N.eqb (N.land flags bit) bit.
 Definition intersects (flags bits : N) : bool := negb (N.eqb (N.land flags bits) 0).
 Definition without (flags bits : N) : N := N.ldiff flags bits.
+(* OpenFlags::contains(c) for a non-empty c; an empty c means "no such check in the source" *)
+Definition has_nz (flags c : N) : bool := negb (N.eqb c 0) && has flags c.
